@@ -410,6 +410,48 @@ theorem flippv_partitions (bset : List Nat) (n : Nat) (hnd : bset.Nodup) (hlt : 
     (bset ++ flippv bset n).Perm (List.range n) ∧ (flippv bset n).Pairwise (· < ·) :=
   ⟨flippv_perm bset n hnd hlt, flippv_sorted bset n⟩
 
+/-- ★ `bset_isPartition`.  The index functions the model builds from the partition VECTOR — `bset` as a
+list in ANY order, the q-set `locate.flippv(bset, n)`, positions looked up with `posOf` — satisfy
+`IsPartition`: every theorem above applies to `cb.cbtf` called with that vector. -/
+theorem bset_isPartition (n r nq : Nat) [NeZero n] [NeZero r] [NeZero nq] (bset : List Nat)
+    (hnd : bset.Nodup) (hlt : ∀ i ∈ bset, i < n) (hr : bset.length = r)
+    (hq : (flippv bset n).length = nq) :
+    IsPartition (posFn n bset r) (posFn n (flippv bset n) nq)
+      (locFn (n := n) bset (flippv bset n) r nq) := by
+  have hqnd := flippv_nodup bset n
+  constructor
+  · intro i
+    unfold locFn
+    rcases hp : posOf i.1 bset with _ | l
+    · have hmem : i.1 ∈ flippv bset n := (mem_flippv _ _ _).2 ⟨i.2, posOf_none.1 hp⟩
+      obtain ⟨k, hk⟩ := List.mem_iff_getElem?.1 hmem
+      have hk' := posOf_of_getElem? hqnd hk
+      have hklt : k < nq := by
+        rw [← hq]; exact (List.getElem?_eq_some_iff.1 hk).1
+      simp only [hk', Option.getD_some, Sum.elim_inr, posFn]
+      rw [ofNat_val hklt, List.getD_eq_getElem?_getD, hk, Option.getD_some, ofNat_fin]
+    · have hl := posOf_some hp
+      have hllt : l < r := by
+        rw [← hr]; exact (List.getElem?_eq_some_iff.1 hl).1
+      simp only [Sum.elim_inl, posFn]
+      rw [ofNat_val hllt, List.getD_eq_getElem?_getD, hl, Option.getD_some, ofNat_fin]
+  · rintro (l | k)
+    · have hl : l.1 < bset.length := by rw [hr]; exact l.2
+      have hget : bset[l.1]? = some bset[l.1] := List.getElem?_eq_getElem hl
+      have hv : bset[l.1] < n := hlt _ (List.getElem_mem hl)
+      simp only [Sum.elim_inl, locFn, posFn]
+      rw [List.getD_eq_getElem?_getD, hget, Option.getD_some, ofNat_val hv,
+        posOf_of_getElem? hnd hget]
+      simp only [ofNat_fin]
+    · have hk : k.1 < (flippv bset n).length := by rw [hq]; exact k.2
+      have hget : (flippv bset n)[k.1]? = some (flippv bset n)[k.1] := List.getElem?_eq_getElem hk
+      have hmem := (mem_flippv bset n _).1 (List.getElem_mem hk)
+      simp only [Sum.elim_inr, locFn, posFn]
+      rw [List.getD_eq_getElem?_getD, hget, Option.getD_some, ofNat_val hmem.1, posOf_none.2 hmem.2,
+        posOf_of_getElem? hqnd hget]
+      simp only [Option.getD_some, ofNat_fin]
+
+
 /-- `bset = [3, 1]` in a 5-DOF model: `qset = [0, 2, 4]` -/
 example : flippv [3, 1] 5 = [0, 2, 4] := by decide
 
